@@ -7,6 +7,7 @@ From SU.Model Require Import Midi.
 From SU.Spec Require Import MidiSpec.
 From SU.Proofs Require Import MidiProofs.
 From SU.Proofs Require Import MidiExtraProofs.
+From SU.Proofs Require Import MidiCapacityWitness.
 Open Scope Z_scope.
 
 (** [falling_gate()] called after any history returns true iff there is a gate fall
